@@ -158,6 +158,8 @@ def framing(ck, thorough, binp, jobs):
             fh.write(json.dumps(b, sort_keys=True) + "\n")
     splits = 100000 if thorough else 6
     pr = vlib.run([binp, "framing", bpath, str(ck.seed), str(splits)], check=False, timeout=1500)
+    if crash_in_reader(ck, pr):
+        return 0
     s = vlib.harness_results(ck, pr, "framing: ")
     if s["behaviours"] != len(uniq):
         raise vlib.InfraError("framing harness replayed %d of %d behaviours" % (s["behaviours"], len(uniq)))
@@ -215,6 +217,30 @@ def framing_selftest(ck, behs, binp, sc):
     if b'"sig":"Framing.IdsPreserved.TypeChanged"' not in pf.stdout:
         raise vlib.InfraError("binding self-test failed: a forged id type (string id expected back as a number) was not reported")
     ck.set("framing_binding_selftest", "forged expectation reported; forged id type reported")
+
+
+def crash_in_reader(ck, pr):
+    """'Malformed or truncated frames yield an error, never a hang or panic': a fatal runtime error (an impossible allocation)
+    cannot be recovered inside the harness process, so it is classified here from the crash report.  Counted only when the
+    goroutine that was running is inside the real (*stream).Read and the failure is a panic or an allocation of 2 GiB or more
+    (the harness never announces more than 999 999 999 999 bytes and never sends bodies above a few KiB, so an allocation
+    that large is the announced length taken at face value, not memory pressure on the machine)."""
+    if pr.returncode in (0, 66):
+        return False
+    err = (pr.stderr or b"").decode(errors="replace")
+    if "fatal error:" not in err and "panic:" not in err:
+        return False
+    m = re.search(r"^goroutine \d+[^\n]*\[running[^\]]*\]:\n(.*?)(?:\n\n|\Z)", err, re.S | re.M)
+    if not m or "lsp/jsonrpc2.(*stream).Read" not in m.group(1):
+        return False
+    oom = re.search(r"out of memory: cannot allocate (\d+)-byte block", err)
+    if oom and int(oom.group(1)) < (1 << 31):
+        return False
+    head = err[:err.find("goroutine ")][-600:] if "goroutine " in err else err[:600]
+    ck.violation("Framing.MalformedGivesError.ReaderCrash",
+                 "the process died inside (*stream).Read while reading a frame (a malformed header must yield an error): " + head.strip()[-300:],
+                 {"crash_report_head": head, "running_goroutine": m.group(1)[:2500]})
+    return True
 
 
 def framing_mc(ck, jobs):
